@@ -21,7 +21,7 @@ func init() {
 	register(&Prop{
 		ID:    "C18",
 		Level: "exploration",
-		Rule: "case = one base string of 0-12 atoms drawn from newline+ascii+wide+combining+zero-width+emoji+invalid-UTF-8+CR+SGR alphabets (phase 0), or every string of <=3 atoms over a 12-atom hostile alphabet (phase 1, exhaustive); each is checked in 6 LF variants (as is, LF prepended, LF appended, 2 LF appended, 2 LF prepended + 1 appended, LF between two copies) and as 4 cell kinds (string, Stringer, nested Cell, *Cell). " +
+		Rule: "case = one base string of 0-12 atoms drawn from newline+ascii+wide+combining+zero-width+emoji+invalid-UTF-8+CR+SGR alphabets (phase 0), or every string of <=3 atoms over a 12-atom hostile alphabet (phase 1, exhaustive); each is checked in 6 LF variants (as is, LF prepended, LF appended, 2 LF appended, 2 LF prepended + 1 appended, LF between two copies) and as 6 cell kinds (string, Stringer, GoStringer, error, nested Cell, *Cell), and one long-lived cell whose Stringer item is mutated through all variants and the empty string with Update after each. " +
 			"Distinct = distinct base strings; non-trivial = contains a line feed or a non-ASCII byte.",
 		Assumptions: []string{
 			"display width is the library's own measure (length.StringCells); a defect inside that measure is only visible through the relations cells<=2*runes and LongestLine=max(per line)",
@@ -75,6 +75,41 @@ func c18Check(c *Ctx, base string) {
 		c18String(c, s)
 		c18Cells(c, s)
 	}
+	// one long-lived cell whose item is mutated through all variants (and the empty string) with Update in between:
+	// the relations must hold after every Update, whatever the cell held before
+	item := &gen.PS_0{S: "initial text\nof two lines"}
+	cell := tabular.NewCell(item)
+	seq := append(append([]string{}, variants...), "", base+"\n", "", "x")
+	for k, s := range seq {
+		item.S = s
+		cell.Update()
+		c.Rec.Count("cells_checked_after_mutation_and_Update", 1)
+		text := cell.String()
+		d := map[string]interface{}{"mutation_sequence": qs(seq[:k+1])}
+		c.Case = d
+		if text != s {
+			c.Rec.Count("cells_with_unexpected_text", 1)
+		}
+		if h, n := cell.Height(), len(cell.Lines()); h != n {
+			c.Rec.Violate("Cell.Height!=len(Lines):after-Update", fmt.Sprintf("after mutating the item to %q and Update: Height()=%d but len(Lines())=%d", s, h, n), d)
+			return
+		}
+		if w, want := cell.TerminalCellWidth(), length.LongestLineCells(text); w != want {
+			c.Rec.Violate("Cell.Width!=LongestLineCells:after-Update", fmt.Sprintf("after mutating the item to %q and Update: TerminalCellWidth()=%d but LongestLineCells(text)=%d", s, w, want), d)
+			return
+		}
+		if e := cell.Empty(); e != (text == "") {
+			c.Rec.Count("cells_with_unexpected_empty_flag", 1)
+		}
+	}
+}
+
+func qs(ss []string) []gen.Q {
+	out := make([]gen.Q, len(ss))
+	for i := range ss {
+		out[i] = gen.Q(ss[i])
+	}
+	return out
 }
 
 func c18String(c *Ctx, s string) {
